@@ -57,7 +57,7 @@ def replay_lz(ctx, D, lz, plans_known, plans_raw, dict_rows, start=0):
             # LZMA2 chunk(s): size known = sum of all symbols, marker forbidden
             data = D.lz_plan_to_lzma2(p)
             exp = bytes(D.BYTEMAP[b] for b in p['out'])
-            pre = bytes([0x41, 0xFE, 0x41, 0xFE]) if p['ctx'] != 'fresh' else b""
+            pre = b"" if p['ctx'] == 'fresh' else (D.BIGPRE_OUT if p['ctx'] == 'afterwrap' else bytes([0x41, 0xFE, 0x41, 0xFE]))
             want = vmap[p['v']]
             last = p['syms'][-1]['t']
             for mode in ("oneshot", "bytewise"):
@@ -153,8 +153,14 @@ def replay_lzma2(ctx, D, lz, items, start=0):
                 "run": {"BUF_ERROR"}}[it['ret']]
         data = conc['data'] + (tail if it['ret'] in ("DATA_ERROR", "DATA_OR_BUF") else b"")
         exp = b"".join(conc['outs'][i - 1] for i in it['out'])
-        for mode in ("oneshot", "bytewise"):
-            sl = None if mode == "oneshot" else [1] * len(data)
+        runs = [("oneshot", conc, data, exp), ("bytewise", conc, data, exp)]
+        if it['ret'] == 'STREAM_END' or idx % 4 == 0:
+            # the same chunk sequence with every data chunk larger than the dictionary: later resets hit a wrapped window
+            concw = D.concretise_chunks(it['chunks'], random.Random(ctx.seed * 100003 + idx), big=True)
+            dataw = concw['data'] + (tail if it['ret'] in ("DATA_ERROR", "DATA_OR_BUF") else b"")
+            runs.append(("wrap", concw, dataw, b"".join(concw['outs'][i - 1] for i in it['out'])))
+        for mode, conc, data, exp in runs:
+            sl = [1] * len(data) if mode == "bytewise" else None
             ret, out, _, tin = D.raw_decode([(lz.FILTER_LZMA2, D.lzma1_opts(4096))], data, slices=sl)
             n += 1
             kinds = "/".join("%s.%s%s" % (c['k'], c['reset'], "" if c['pl'] == 'ok' and c['props'] == 'ok' else "!" + c['pl'] + c['props']) for c in it['chunks'])
@@ -214,6 +220,7 @@ def replay_xz(ctx, D, lz, groups, cat, start=0, base=0, mt_every=3):
             ctx.violation(key, detail, obj)
     n = 0
     sampled = False
+    bycat = {e['did']: e for e in cat}
     for idx in range(start, len(groups)):
         g = groups[idx]
         gi = base + idx
@@ -253,6 +260,14 @@ def replay_xz(ctx, D, lz, groups, cat, start=0, base=0, mt_every=3):
             ret, out, tells, tin = D.decode_stream(data, flags, slices=[1] * len(data))
             compare("stream_decoder/1", ret, out, tells, tin, g['rets'])
             n += 1
+        # ... into one-byte output buffers when a Block has non-last filters (they keep a few bytes back)
+        chained = any(len(b['filters']) > 1 for s_ in af['streams'] for b in s_['blocks'])
+        if chained:
+            ret, out, tells, tin = D.decode_stream(data, flags, out_slice=1)
+            compare("stream_decoder/out1", ret, out, tells, tin, g['rets'])
+            ret, out, tells, tin = D.decode_stream(data, flags, out_slice=3, slices=[5] * (len(data) // 5 + 1))
+            compare("stream_decoder/out3", ret, out, tells, tin, g['rets'])
+            n += 2
         # lzma_stream_buffer_decode (no LZMA_TELL_ANY_CHECK there)
         if not fl['tellAny']:
             bret, bout, bin_ = D.buffer_decode(data, flags)
@@ -312,11 +327,41 @@ def replay_xz(ctx, D, lz, groups, cat, start=0, base=0, mt_every=3):
                     for k in range(len(b['filters'])):
                         o, l = names["s%d.b%d.header.f%d.props" % (si, bi, k)]
                         props.append(data[o:o + l])
-                    rret, rout, _, rtin = D.raw_decode(filter_specs(lz, D, b, props), data[dt[0]:dt[0] + dt[1]])
-                    n += 1
-                    if rret != "STREAM_END" or rout != meaning[blk_index]:
-                        viol("xz:raw_decoder:valid:%s" % rret, "raw decoder with chain %s: %s, %d bytes (expected %d)" % (
-                            [f['id'] for f in b['filters']], rret, len(rout), len(meaning[blk_index])), repl)
+                    specs = filter_specs(lz, D, b, props)
+                    for osl in ((None, 1, 2, 5) if len(b['filters']) > 1 else (None,)):
+                        rret, rout, _, rtin = D.raw_decode(specs, data[dt[0]:dt[0] + dt[1]], out_slice=osl)
+                        n += 1
+                        if rret != "STREAM_END" or rout != meaning[blk_index]:
+                            viol("xz:raw_decoder:valid:%s:%s" % (rret, "out%s" % osl if osl else "oneshot"), "raw decoder with chain %s, output space %s per call: %s, %d bytes (expected %d)%s" % (
+                                [f['id'] for f in b['filters']], osl, rret, len(rout), len(meaning[blk_index]), "" if len(rout) != len(meaning[blk_index]) else " - bytes differ"), repl)
+                    if len(b['filters']) > 1:
+                        bret2, bout2, _, _ = D.block_decode(hdr, rest, s['check'], ignore_check=fl['ignoreCheck'], out_slice=1)
+                        n += 1
+                        if bret2 != "STREAM_END" or bout2 != meaning[blk_index]:
+                            viol("xz:block_decoder:valid:out1:%s" % bret2, "valid Block s%d.b%d, one byte of output space per call: %s, %d bytes" % (si, bi, bret2, len(bout2)), repl)
+                    # a convertible instruction at every distance 0..8 from the end of the data, for every BCJ filter of the chain
+                    e = bycat.get(b['did'])
+                    if len(b['filters']) > 1 and e is not None and D.unc_only(e) and gi % 2 == 0:
+                        from harness.glue import filters as gflt
+                        fl_ = [(D.FILTER_ID[f['id']], pr) for f, pr in zip(b['filters'], props)]
+                        ntot = sum(c['n'] for c in e['chunks'])
+                        for fid in sorted(set(x for x, _ in fl_[:-1] if x in D.INSN)):
+                            for t in range(9):
+                                want = D.bcj_tail_plain(ntot, fid, t, random.Random(gi * 131 + t))
+                                enc = want
+                                for x, pr in fl_[:-1]:
+                                    enc = gflt.apply_nonlast(x, pr, enc, True)
+                                plain = enc
+                                for x, pr in reversed(fl_[:-1]):
+                                    plain = gflt.apply_nonlast(x, pr, plain, False)
+                                l2 = D.rebuild_unc(e, enc)
+                                for osl in (1, 2):
+                                    rret, rout, _, _ = D.raw_decode(specs, l2, out_slice=osl)
+                                    n += 1
+                                    if rret != "STREAM_END" or rout != plain:
+                                        viol("xz:raw_decoder:bcj_tail:%s:out%d" % (rret, osl), "chain %s, %d bytes with a convertible instruction of filter %d ending %d bytes before the end, %d byte(s) of output space per call: %s, %s" % (
+                                            [f['id'] for f in b['filters']], ntot, fid, t, osl, rret, "bytes differ at %s" % [i for i in range(min(len(rout), len(plain))) if rout[i] != plain[i]][:6] if len(rout) == len(plain) else "%d bytes" % len(rout)),
+                                            dict(repl, lzma2=l2.hex(), expected=plain.hex()))
         if not sampled and "DATA_ERROR" in g['rets']:
             sampled = True
             ctx.sample(dict(kind="abstract_file_with_prediction", file=af, flags=fl, model_ret=sorted(g['rets']), bytes=data.hex()))
